@@ -216,6 +216,8 @@ pub struct Knobs {
     #[serde(with = "hexf::opt")]
     pub beta: Option<f64>,
     pub stiff_test: Option<usize>,
+    #[serde(default, with = "hexf::opt")]
+    pub uround: Option<f64>,
     pub newton_maxiter: Option<usize>,
     pub predictive: Option<bool>,
 }
